@@ -637,6 +637,29 @@ class NotInFragment(Exception):
     pass
 
 
+def expr_vars(e):
+    if not isinstance(e, tuple):
+        return []
+    if e[0] == "var":
+        return [e[1]]
+    out = []
+    for x in e[1:]:
+        out += expr_vars(x)
+    return out
+
+
+def declared_names(ss):
+    out = []
+    for s in ss:
+        if s[0] == "decl":
+            out.append(s[2])
+        elif s[0] == "if":
+            out += declared_names(s[2]) + declared_names(s[3])
+        elif s[0] == "for":
+            out += [s[2]] + declared_names(s[4])
+    return out
+
+
 def model_render(line, types):
     """one result of the model driver ('OK i:5 s:1,2' | 'ER class') -> ('ok', stdout) | ('er', class) | ('shape',) when
     the number/kind of outputs does not fit the print types of the reference run"""
@@ -703,7 +726,7 @@ def to_model(prog):
             return "n " + ex(e[1])
         raise NotInFragment()
 
-    def stmts(ss, vt):
+    def stmts(ss, vt, params=()):
         out = ["%d" % len(ss)]
         for s in ss:
             k = s[0]
@@ -712,12 +735,16 @@ def to_model(prog):
                     raise NotInFragment()
                 vt[s[2]] = s[1]
                 out.append("D %s %s" % (nm(s[2]), ex(s[3])))
+            elif k == "asg" and s[1][0] == "el" and s[1][1][0] == "var" and vt.get(s[1][1][1]) == "ZL":
+                out.append("I %s %s %s" % (var(s[1][1]), ex(s[1][2]), ex(s[2])))
             elif k == "asg":
                 out.append("A %s %s" % (var(s[1]), ex(s[2])))
             elif k == "chr_asg":
                 out.append("I %s %s %s" % (var(s[1]), ex(s[2]), ex(s[3])))
             elif k == "print":
-                if s[2] != "wrapped":
+                # showing a parameter directly hands it to an extern function: the annotator then gives up on it,
+                # which the model's print does not express
+                if s[2] != "wrapped" and set(expr_vars(s[1])) & set(params):
                     raise NotInFragment()
                 if ex_type(s[1], vt) not in ("Z", "B", "T", "ZL"):
                     raise NotInFragment()
@@ -726,13 +753,13 @@ def to_model(prog):
                 args = " ".join(("V " + ex(a[1])) if a[0] == "val" else ("X " + var(a[1])) for a in s[3])
                 out.append("C %s %s %d %s" % ("0" if s[1] is None else "1 " + var(s[1]), fidx[s[2]], len(s[3]), args))
             elif k == "if":
-                out.append("Y %s %s %s" % (ex(s[1]), stmts(s[2], dict(vt)), stmts(s[3], dict(vt))))
+                out.append("Y %s %s %s" % (ex(s[1]), stmts(s[2], dict(vt), params), stmts(s[3], dict(vt), params)))
             elif k == "for":
                 if s[1] not in ("Z", "B"):
                     raise NotInFragment()
                 vt2 = dict(vt)
                 vt2[s[2]] = s[1]
-                out.append("R %s %s %s" % (nm(s[2]), ex(s[3]), stmts(s[4], vt2)))
+                out.append("R %s %s %s" % (nm(s[2]), ex(s[3]), stmts(s[4], vt2, params)))
             else:
                 raise NotInFragment()
         return " ".join(out)
@@ -755,11 +782,14 @@ def to_model(prog):
                     raise NotInFragment()
                 fvt[pn] = pt
                 ps.append("%s %d" % (nm(pn), 1 if isref else 0))
-            body = stmts(f["body"], fvt)
+            body = stmts(f["body"], fvt, [pp[0] for pp in f["params"]])
             if f["ret"] is None:
                 r = "0"
             else:
                 if f["ret"][0] not in ("Z", "T", "ZL"):
+                    raise NotInFragment()
+                # the model evaluates the returned expression over parameters and globals only
+                if set(expr_vars(f["ret"][1])) & set(declared_names(f["body"])):
                     raise NotInFragment()
                 r = "1 " + ex(f["ret"][1])
             fs.append("F %d %s %s %s" % (len(ps), " ".join(ps), body, r))
